@@ -43,7 +43,11 @@ func main() {
 	case "robust":
 		count, err = drive.RobustRandom(*out, *seed, *n, *depth)
 	case "reimport":
-		count, err = drive.ReimportRandom(*out, *seed, *n, *depth)
+		if *mode != "" {
+			count, err = drive.ReimportOne(*out, *seed, *n, *depth, *mode)
+		} else {
+			count, err = drive.ReimportRandom(*out, *seed, *n, *depth)
+		}
 	case "ante":
 		count, err = drive.AnteReplay(*cases, *out, *seed)
 	case "handover":
